@@ -307,3 +307,125 @@ def describe(c):
             "partitions": len(c["partitions"] or []), "maxlag": c["maxlag"] is not None,
             "extras": None if c["extras"] is None else len(c["extras"]),
             "status_wf": status_wf(c), "json_safe": json_safe(c)}
+
+
+# ---------------------------------------------------------------------------------------------
+# "conf" cases: the real Coordinator.Configure on a generated notifier section
+#   conf <reps> <#modules> {<name> <class> <open file> <close file> <send-close> <#extras> {<key> <value>}}
+#        <cluster> <group> <id> <start> <status> ... (the rest as in a render case)
+# ---------------------------------------------------------------------------------------------
+CLASSES = ["http", "http", "email", "null"]     # slack notifications are sent by the http class with the slack templates
+EXTRA_KEYS = ["api_key", "app", "tier", "foo"]  # viper lower-cases keys
+
+
+def gen_conf(rng, templates, mode="wf", reps=5):
+    c = gen_case(rng, TEMPLATES[0], mode)
+    c["kind"] = "conf"
+    c["reps"] = reps
+    n = rng.choice([1, 2, 2, 3, 3, 4])
+    names = rng.sample(["pager", "chat", "mail", "audit", "m1", "zz"], n)
+    shared = rng.choice(templates)
+    mods = []
+    for nm in names:
+        r = rng.random()
+        if r < 0.35:      # the pairs the shipped configuration examples use
+            o, cl = rng.choice([("default-http-post.tmpl", "default-http-delete.tmpl"),
+                                ("default-slack-post.tmpl", "default-slack-delete.tmpl"),
+                                ("default-email.tmpl", "default-email.tmpl")])
+        elif r < 0.6:     # several modules sharing a file
+            o, cl = (shared, rng.choice(templates)) if rng.random() < 0.5 else (rng.choice(templates), shared)
+        else:             # every combination
+            o, cl = rng.choice(templates), rng.choice(templates)
+        keys = rng.sample(EXTRA_KEYS, rng.randrange(0, 4))
+        mods.append({"name": nm, "class": rng.choice(CLASSES), "open": o, "close": cl,
+                     "send_close": 1 if rng.random() < 0.65 else 0,
+                     "extras": [(k, gen_name(rng, mode == "names")) for k in keys]})
+    c["mods"] = mods
+    return c
+
+
+def fmt_conf(c):
+    out = ["conf", str(c["reps"]), str(len(c["mods"]))]
+    for m in c["mods"]:
+        out += [m["name"], m["class"], m["open"], m["close"], str(m["send_close"]), str(len(m["extras"]))]
+        for k, v in m["extras"]:
+            out += [hx(k), hx(v)]
+    tail = fmt_case(c).split(" ")
+    # render <tmpl> <good> <cluster> <group> <id> <start> <#extras|-1> {k v} <status> ...
+    head, rest = tail[3:7], tail[7:]
+    n = int(rest[0])
+    rest = rest[1 + 2 * max(n, 0):]
+    return " ".join(out + head + rest)
+
+
+def parse_conf(line):
+    t = _Toks(line)
+    assert t.next() == "conf"
+    c = {"kind": "conf", "reps": int(t.next()), "mods": []}
+    for _ in range(int(t.next())):
+        m = {"name": t.next(), "class": t.next(), "open": t.next(), "close": t.next(), "send_close": int(t.next())}
+        m["extras"] = [(unhx(t.next()), unhx(t.next())) for _ in range(int(t.next()))]
+        c["mods"].append(m)
+    c["cluster"], c["group"], c["id"], c["start"] = unhx(t.next()), unhx(t.next()), unhx(t.next()), int(t.next())
+    c["status"] = int(t.next())
+    c["complete"] = t.next()
+    c["total_partitions"] = int(t.next())
+    c["total_lag"] = int(t.next())
+    c["maxlag"] = _partition(t)
+    n = int(t.next())
+    c["partitions"] = None if n < 0 else [_partition(t) for _ in range(n)]
+    c["template"] = "(configured)"
+    c["good"] = 0
+    c["extras"] = None
+    return c
+
+
+def conf_oracle(c, impl_line):
+    """C20 on what the coordinator really executes: every configured module must execute the template its
+    template-open / template-close key names (on every one of the repeated Configure runs), and those renderings
+    must satisfy the render oracle."""
+    fails = []
+    if "MISMATCH" in impl_line or impl_line.startswith("CONFIGURE-PANIC"):
+        return ["the template a module executes is not the one its configuration names: " + impl_line]
+    parts = impl_line.split(" | ")
+    mods = sorted(c["mods"], key=lambda m: m["name"])
+    if len(parts) != len(mods):
+        return ["unexpected probe output: " + impl_line]
+    for m, p in zip(mods, parts):
+        f = p.split(" ")
+        try:
+            o = p[p.index(" open=") + 6:p.index(" close=")]
+            cl = p[p.index(" close=") + 7:]
+        except ValueError:
+            fails.append("unexpected probe output for module %s: %s" % (m["name"], p))
+            continue
+        for kind, file, verdict in (("open", m["open"], o), ("close", m["close"], cl)):
+            if kind == "close" and not m["send_close"]:
+                continue
+            cc = dict(c)
+            cc["template"], cc["extras"] = file, m["extras"]
+            fails += ["module %s (%s): %s" % (m["name"], kind, x) for x in oracle(cc, verdict)]
+    return fails
+
+
+def describe_conf(c):
+    d = describe(c)
+    d.pop("template", None)
+    d.pop("stateGood", None)
+    d.pop("extras", None)
+    d["modules"] = [{k: m[k] for k in ("name", "class", "open", "close", "send_close")} | {"extras": len(m["extras"])}
+                    for m in c["mods"]]
+    d["configure_runs"] = c["reps"] + 1
+    return d
+
+
+def parse_any(line):
+    return parse_conf(line) if line.startswith("conf ") else parse(line)
+
+
+def oracle_any(c, impl_line):
+    return conf_oracle(c, impl_line) if c.get("kind") == "conf" else oracle(c, impl_line)
+
+
+def describe_any(c):
+    return describe_conf(c) if c.get("kind") == "conf" else describe(c)
